@@ -16,6 +16,7 @@ const (
 	CertUnderQuorum CertMode = "under-quorum"
 	CertForged      CertMode = "forged"
 	CertWrongHash   CertMode = "wrong-hash"
+	CertDuplicated  CertMode = "duplicated-vote"
 )
 
 // MakeCert builds a certificate for blk on top of r's current head (r must not
@@ -68,6 +69,17 @@ func (w *World) MakeCert(r *Replica, blk *types.Block, mode CertMode) *types.Blo
 		}
 		if len(votes) == 0 {
 			return &types.BlockCert{}
+		}
+	case CertDuplicated:
+		// one vote short of the quorum, filled up by repeating a genuine vote (needs a threshold above one)
+		if need < 2 || len(voters) == 0 {
+			return w.MakeCert(r, blk, CertUnderQuorum)
+		}
+		for i := 0; i < need-1 && i < len(voters); i++ {
+			sign(voters[i])
+		}
+		for len(votes) < need {
+			votes = append(votes, votes[0])
 		}
 	case CertForged:
 		// enough signatures, but from keys outside the committee
